@@ -544,8 +544,10 @@ def run(run):
     quick = run.tier == "quick"
     rng = random.Random(run.seed)
     cx = Ctx(run)
-    u = M.load_universe(run, "ValLaws_c06_quick" if quick else "ValLaws_c06_thorough",
-                        "ValLaws: equality laws over the universe")
+    res_u, res = M.tlc_parallel([
+        ("ValLaws", "ValLaws_c06_quick" if quick else "ValLaws_c06_thorough", dict(coverage=False, timeout=3000)),
+        ("ValCont", "ValCont_quick" if quick else "ValCont_thorough", dict(coverage=True, timeout=3000))])
+    u = M.load_universe(run, None, "ValLaws: equality laws over the universe", res_u)
     n = u["n"]
     A, L = build_universe(cx, u)
     neq = 0
@@ -567,8 +569,6 @@ def run(run):
                 nun += 1
     run.sample({"PAIR": {"a": M.literal(u["v"][5]), "b": M.literal(u["v"][6]), "Equal": u["eq"][5][6]}})
 
-    from .tla import run_tlc
-    res = run_tlc("ValCont", "ValCont_quick" if quick else "ValCont_thorough", coverage=True, timeout=3000)
     run.add_tlc(res, "ValCont: set / map object machine")
     pools = res.records("POOL")
     if not pools:
